@@ -334,7 +334,13 @@ where
                     Ok(message) => message,
                     Err(err) => {
                         *this.close = true;
-                        return Poll::Ready(Some(WsMessage::Close(1002, err.to_string())));
+                        // graphql-transport-ws: "4400: <error-message>" for a message of an
+                        // unknown type or format; the legacy protocol defines no close codes
+                        let code = match this.protocol {
+                            Protocols::SubscriptionsTransportWS => 1002,
+                            Protocols::GraphQLWS => 4400,
+                        };
+                        return Poll::Ready(Some(WsMessage::Close(code, err.to_string())));
                     }
                 };
 
